@@ -48,6 +48,7 @@ if RUSTFLAGS="-Zsanitizer=address" cargo +nightly build --release --offline --fe
      --target x86_64-unknown-linux-gnu --target-dir target/asan >"$OUT/asan-build.log" 2>&1; then
   for spec in "K1 1500" "K2 1500" "K3 1500" "K4 1500" "K5 1500" "K6 1500" "K7 1500" "Q1open 1500" "Q2 200" "Q6 1000" "Q7 1000" "Q9 500" "QM 20000"; do
     set -- $spec
+    echo "$2" >"$OUT/asan-$1.n"
     ( ASAN_OPTIONS=detect_leaks=0 "$ASAN" mem "$1" "$2" "$SEED" >"$OUT/asan-$1.log" 2>&1; echo $? >"$OUT/asan-$1.rc" ) &
   done
   wait
@@ -59,7 +60,7 @@ if RUSTFLAGS="-Zsanitizer=address" cargo +nightly build --release --offline --fe
       if grep -q "ERROR: AddressSanitizer" "$OUT/asan-$spec.log"; then
         kind=$(grep -o "AddressSanitizer: [a-z-]*" "$OUT/asan-$spec.log" | head -1 | cut -d' ' -f2)
         where=$(grep -o "/repo/core/src/[a-z_]*\.rs" "$OUT/asan-$spec.log" | head -1 | xargs -r basename)
-        report "asan:$kind:${where:-unknown}" "cd $ROOT/sim && ASAN_OPTIONS=detect_leaks=0 $ASAN mem $spec <runs> $SEED" "$OUT/asan-$spec.log"
+        report "asan:$kind:${where:-unknown}" "cd $ROOT/sim && ASAN_OPTIONS=detect_leaks=0 $ASAN mem $spec $(cat "$OUT/asan-$spec.n") $SEED" "$OUT/asan-$spec.log"
       else
         echo "HARNESS-ERROR: ASan run of $spec exited with $rc"; tail -5 "$OUT/asan-$spec.log"; harness=1
       fi
@@ -74,6 +75,7 @@ miri_runs=0
 MIRI_BASE="-Zmiri-ignore-leaks -Zmiri-disable-isolation"
 miri() { # name, flags, args...
   local name="$1" flags="$2"; shift 2
+  echo "cd $ROOT/sim && MIRIFLAGS='$MIRI_BASE $flags' CARGO_NET_OFFLINE=true cargo +nightly miri run --offline --target-dir target/miri -- $*" >"$OUT/miri-$name.cmd"
   ( MIRIFLAGS="$MIRI_BASE $flags" cargo +nightly miri run --offline --target-dir target/miri -- "$@" >"$OUT/miri-$name.log" 2>&1; echo $? >"$OUT/miri-$name.rc" )
 }
 # build once (first invocation), then the scenarios in parallel
@@ -105,7 +107,7 @@ for name in seq1 seq2 seq3 k1 k3 k7 thr-safe thr-all; do
     if [ -z "$where" ]; then
       echo "HARNESS-ERROR: Miri reported UB outside llfree in $name:"; echo "$msg"; harness=1
     else
-      report "miri:$kind:$where" "cd $ROOT/sim && MIRIFLAGS='$MIRI_BASE' cargo +nightly miri run --offline --target-dir target/miri -- $(grep -o 'mem[a-z-]* .*' <<<"$name" || true) (scenario $name, see tools/c18_deep.sh)" "$OUT/miri-$name.log"
+      report "miri:$kind:$where" "$(cat "$OUT/miri-$name.cmd")" "$OUT/miri-$name.log"
     fi
   elif [ "$rc" != 0 ]; then
     echo "HARNESS-ERROR: Miri scenario $name exited with $rc"; tail -5 "$OUT/miri-$name.log"; harness=1
